@@ -13,7 +13,9 @@
     history is a history of the model under [current_fix]; [0; j; ...] = no model run produces the
     observation after command j.  Every state the search visits is produced by [RwLock.step], i.e.
     is a state of the small-step system the theorems of Props/C17.v quantify over.
-    Other kinds (un-barriered races, multi-thread runs) are judged by the harness oracle only: [1]. *)
+    Kind 4 = the same with cancelled write requests (command 6), see [accept_g] below.
+    Other kinds (un-barriered races, multi-thread runs, kind 3 = barriered with cancelled read
+    requests) are judged by the harness oracle only: [1]. *)
 From Remoc Require Import Lib.Base Robj.RwLock.
 
 (** the fetch variant of the code under /repo (flip to [FixClear] when the repair of F5 lands) *)
@@ -142,10 +144,113 @@ Fixpoint split_sep (l : list N) : list N * list N :=
   | x :: r => if x =? SEP then ([], r) else let '(a, b) := split_sep r in (x :: a, b)
   end.
 
+(** ** kind 4: barriered cases with CANCELLED WRITE REQUESTS.
+    Command 6 on client c drops the pending future of [RwLock::write]: [value_rx], [new_value_tx] and
+    [confirm_rx] are dropped with it, the [WriteRequest] itself stays where it is; the owner serves
+    it like any other one (invalidate, wait for all copies, new generation, hand out) and then finds
+    [new_value_tx] dropped -- exactly what it finds when a write guard is dropped without a commit.
+    The model has no cancel action; the search represents the cancelled request by a GHOST: the
+    model client that issued it keeps running (and is invisible from then on), the harness client
+    continues on a spare idle model client of the same cache, and the user action [ADropW g] is
+    taken for a ghost g as soon as it is enabled.  Every state visited is still produced by
+    [RwLock.step].  (A request whose [send] is still waiting for room in the request channel when
+    it is cancelled never reaches the owner; its ghost is served when no copy of the current
+    generation exists yet, which cannot be observed at a barrier.)
+    Cancelled READ requests are not representable this way (the future holds the cache write lock):
+    kind 3, oracle only. *)
+Definition successors_g (fx : fixmode) (ghosts : list nat) (s : state) : list state :=
+  successors fx s
+  ++ flat_map (fun g => match step fx s (ADropW g) with Some s' => [s'] | None => [] end) ghosts.
+
+Fixpoint closure_g (fx : fixmode) (ghosts : list nat) (fuel : nat) (todo : list state)
+         (seen : list (list N)) (quiet : list state) : option (list state) :=
+  match fuel with
+  | O => None
+  | S f =>
+      match todo with
+      | [] => Some quiet
+      | s :: rest =>
+          let e := enc s in
+          if mem e seen then closure_g fx ghosts f rest seen quiet
+          else match successors_g fx ghosts s with
+               | [] => closure_g fx ghosts f rest (e :: seen) (s :: quiet)
+               | succ => closure_g fx ghosts f (succ ++ rest) (e :: seen) quiet
+               end
+      end
+  end.
+
+Definition obs_g (cmap : list nat) (s : state) : list N :=
+  flat_map (fun m => match nth_error (clients s) m with Some cl => obs_cl s cl | None => [98; 0] end) cmap.
+
+Fixpoint set_nth {A} (n : nat) (x : A) (l : list A) : list A :=
+  match l, n with
+  | [], _ => []
+  | _ :: r, O => x :: r
+  | y :: r, S n' => y :: set_nth n' x r
+  end.
+
+(** [nx] = number of cancel commands seen so far (the k-th one owns spare slot [ncli + k]);
+    [prev] = the observation after the previous command *)
+Fixpoint accept_g (fx : fixmode) (ncli : nat) (j : N) (nx : nat) (cmap ghosts : list nat) (prev : list N)
+         (states : list state) (ops obsv : list N) : list N :=
+  match ops with
+  | op :: c :: arg :: rest =>
+      let cn := N.to_nat c in
+      let '(o, obsv') := take (2 * ncli) obsv in
+      let slot := nth cn cmap O in
+      let cancel := (op =? 6) && (nth (2 * cn) prev 0 =? 4) in
+      let cmap' := if cancel then set_nth cn (ncli + nx)%nat cmap else cmap in
+      let ghosts' := if cancel then slot :: ghosts else ghosts in
+      let nx' := if op =? 6 then S nx else nx in
+      let start :=
+        if op =? 6 then Some states
+        else match act_of op (nn slot) arg with
+             | Some a => Some (map (fun s => step' fx s a) states)
+             | None => None
+             end in
+      match start with
+      | None => [98]
+      | Some st =>
+          match closure_g fx ghosts' closure_fuel st [] [] with
+          | None => [99]
+          | Some quiet =>
+              match filter (fun s => list_eqb (obs_g cmap' s) o) quiet with
+              | [] => 0 :: j :: match quiet with s :: _ => obs_g cmap' s | [] => [] end
+              | sts => accept_g fx ncli (j + 1) nx' cmap' ghosts' o sts rest obsv'
+              end
+          end
+      end
+  | [] => [1]
+  | _ => [98]
+  end.
+
+(** the caches of the spare clients: one per cancel command, the cache of the cancelled client *)
+Fixpoint spare_caches (cache_of : list nat) (ops : list N) : list nat :=
+  match ops with
+  | op :: c :: _ :: rest =>
+      (if op =? 6 then [nth (N.to_nat c) cache_of O] else []) ++ spare_caches cache_of rest
+  | _ => []
+  end.
+
+Definition run_rwlock_g (fx : fixmode) (v0 : N) (n : nat) (rest : list N) : list N :=
+  let '(cof, rest1) := take n rest in
+  match rest1 with
+  | nops :: rest2 =>
+      let '(ops, obsv) := split_sep rest2 in
+      if negb (len ops =? 3 * nops) then [98]
+      else
+        let cache_of := map N.to_nat cof in
+        let nk := S (fold_right Nat.max O cache_of) in
+        accept_g fx n 0 O (seq 0 n) [] (repeat 0 (2 * n))
+                 [init v0 nk (cache_of ++ spare_caches cache_of ops)] ops obsv
+  | [] => [98]
+  end.
+
 Definition run_rwlock_fx (fx : fixmode) (inp : list N) : list N :=
   match inp with
   | kind :: v0 :: seed :: ncli :: rest =>
-      if negb (kind =? 0) then [1]
+      if kind =? 4 then run_rwlock_g fx v0 (N.to_nat ncli) rest
+      else if negb (kind =? 0) then [1]
       else
         let n := N.to_nat ncli in
         let '(cof, rest1) := take n rest in
